@@ -7,19 +7,23 @@ import pipeline
 import talgen
 
 PID = 'C05'
-PROOF_MODULES = ['ChamProofs.Props.C05']
+PROOF_MODULES = ['ChamProofs.Props.C05', 'ChamProofs.Props.C05Eval']
 THEOREMS = ['ChamVerif.C05_bracket_restores', 'ChamVerif.C05_bracket_frame', 'ChamVerif.ScopeStore.C05_copy_sees_same',
             'ChamVerif.ScopeStore.C05_copy_local_private', 'ChamVerif.ScopeStore.C05_global_through_copy',
-            'ChamVerif.Dict.get_set_same', 'ChamVerif.Dict.get_set_other']
-LEVEL_TEXT = ('Proved in Lean for every dictionary, name and value: the backup/restore bracket the compiler puts around every local '
+            'ChamVerif.Dict.get_set_same', 'ChamVerif.Dict.get_set_other', 'ChamVerif.Root.rk_all', 'ChamVerif.C05_local_define_restores']
+LEVEL_TEXT = ('Proved in Lean on the whole interpreter model: when an element with a local tal:define of a name is finished, the name is bound to '
+              'exactly what it was bound to before — the outer binding visible again unchanged, or undefined again — for every body (macro '
+              'calls, repeats, on-error, global definitions of the same name included), scope, state and fuel (C05_local_define_restores, '
+              'using rk_all: the root dictionary of a scope is constant within a function, by induction on the fuel over the four '
+              'evaluator functions and every node kind). On the dictionary level, for every dictionary, name and value: the backup/restore bracket the compiler puts around every local '
               'assignment re-establishes the previous binding, present or absent alike, and touches no other name (C05_bracket_restores, '
               'C05_bracket_frame); on the two-level Scope store: a copy (the scope a macro or slot filler runs in) sees exactly the '
               'original\'s bindings, its local assignments never reach the original, and a set_global through it is what the original '
               'reads (C05_copy_sees_same, C05_copy_local_private, C05_global_through_copy). The Scope model is tied to utils.Scope by '
               'operation-sequence correspondence; the node interpreter (define/repeat/on-error scoping) by end-to-end correspondence with '
               'scope probes and colliding names; the property itself is judged on the implementation by a constructive reference.')
-LEVEL_NOTE = ('Trusted: Lean kernel; harness. The frame theorem for the whole interpreter (every normally terminating node restores every '
-              'binding) is not yet proved; known findings D-05b (local restore hides a global set inside), D-05c (an exception handled by '
+LEVEL_NOTE = ('Trusted: Lean kernel; harness. The interpreter theorem covers tal:define (single name); the local tal:repeat variable and tuple '
+              'definitions are covered by correspondence and the constructive oracle only. Known findings D-05b (local restore hides a global set inside), D-05c (an exception handled by '
               'tal:on-error skips the restore), D-05d (translate/decode/on_error_handler cannot be shadowed), D-05e (repeat rebound).')
 RULE = ('(a) random operation sequences (length <= 12 quick / 40 thorough) on utils.Scope vs the model store; (b) talgen templates with names '
         'drawn from a pool that includes builtins and helper names, with scope probes; (c) constructive nestings define > repeat > define '
